@@ -4,6 +4,7 @@ import FastorModel.Driver.Expr
 import FastorModel.Driver.Lazy
 import FastorModel.Driver.Config
 import FastorModel.Driver.Simd
+import FastorModel.Driver.SimdGen
 import FastorModel.Driver.Footprint
 import FastorModel.Driver.ViewWrite
 import FastorModel.Driver.Linalg
@@ -34,20 +35,26 @@ def step (line : String) : String :=
   | "lazy" :: rest => runLazy (parseKV rest)
   | "config" :: rest => runConfig (parseKV rest)
   | "intrin" :: rest => runIntrin (parseKV rest)
+  | "gen" :: rest => runGen (parseKV rest)
   | "pfoot" :: rest => runPfoot (parseKV rest)
   | "bounds" :: rest => runBounds (parseKV rest)
   | "memidx" :: rest => runMemidx (parseKV rest)
   | "aflag" :: rest => runAflag (parseKV rest)
+  | "kern3" :: rest => runKern3 (parseKV rest)
   | "vw" :: rest => runVw (parseKV rest)
   | "inv" :: rest => runInv (parseKV rest)
   | "permute" :: rest => runPermute (parseKV rest)
   | "pmeta" :: rest => runPmeta (parseKV rest)
+  | "pmeta2" :: rest => runPmeta2 (parseKV rest)
   | "transpose" :: rest => runTranspose (parseKV rest)
   | "rview" :: rest => runRview (parseKV rest)
   | "fview" :: rest => runFview (parseKV rest)
   | "rview2" :: rest => runRview2 (parseKV rest)
   | "rview3" :: rest => runRview3 (parseKV rest)
   | "fview3" :: rest => runFview3 (parseKV rest)
+  | "rctor2" :: rest => runRctor2 (parseKV rest)
+  | "rvsrc" :: rest => runRvsrc (parseKV rest)
+  | "fvsrc" :: rest => runFvsrc (parseKV rest)
   | "reduce" :: rest => runReduce (parseKV rest)
   | "minmax" :: rest => runMinmax (parseKV rest)
   | "pred" :: rest => runPred (parseKV rest)
